@@ -292,7 +292,7 @@ pub fn main(args: &Args) -> Report {
     });
     rep.out = out;
     rep.floor("quiescent backups", rep.counter("backups.quiescent"), if args.thorough() { 40 } else { 6 });
-    rep.floor("free-running backups", rep.counter("backups.free-running"), if args.thorough() { 200 } else { 10 });
+    rep.floor("free-running backups", rep.counter("backups.free-running"), if args.thorough() { 80 } else { 10 });
     rep.floor("backups with commits in the gap", rep.counter("backups.commits-in-gap") + rep.counter("backups.commits+compaction-in-gap"), if args.thorough() { 100 } else { 12 });
     rep
 }
